@@ -770,7 +770,7 @@ fn main() {
                 };
                 attrs.iter().map(|a| src.range(a).0).min().unwrap_or(s).min(s)
             }).unwrap_or(src.text.len());
-            ed.ins(first_item, "use vstd::prelude::*;\n#[allow(unused_imports)]\nuse crate::verif_prelude::*;\nverus! {\n".to_string(),
+            ed.ins(first_item, "use vstd::prelude::*;\n#[allow(unused_imports)]\nuse vstd::std_specs::iter::IteratorSpec;\n#[allow(unused_imports)]\nuse crate::verif_prelude::*;\nverus! {\n".to_string(),
                 Origin::Vc { file: "splice:R1".into(), line: 0, func: String::new(), kind: "r1".into(), label: String::new() });
             r1 += 1;
             for t in &mc.heads {
@@ -896,13 +896,13 @@ fn main() {
             if !fc.requires.is_empty() {
                 ed.ins(f.sig_end, "\n    requires\n".into(), Origin::Vc { file: fc.file.clone(), line: fc.line, func: fq.clone(), kind: "kw".into(), label: String::new() });
                 for c in &fc.requires {
-                    ed.ins(f.sig_end, format!("{},\n", c.t.text), vc_origin(&c.t, &fq, "requires", &c.label));
+                    ed.ins(f.sig_end, format!("{}\n    ,\n", c.t.text), vc_origin(&c.t, &fq, "requires", &c.label));
                 }
             }
             if !fc.ensures.is_empty() {
                 ed.ins(f.sig_end, "\n    ensures\n".into(), Origin::Vc { file: fc.file.clone(), line: fc.line, func: fq.clone(), kind: "kw".into(), label: String::new() });
                 for c in &fc.ensures {
-                    ed.ins(f.sig_end, format!("{},\n", c.t.text), vc_origin(&c.t, &fq, "ensures", &c.label));
+                    ed.ins(f.sig_end, format!("{}\n    ,\n", c.t.text), vc_origin(&c.t, &fq, "ensures", &c.label));
                 }
             }
             if !fc.prologue.is_empty() {
@@ -962,7 +962,7 @@ fn main() {
 
         // ---- apply edits
         let mut edits = ed.edits.clone();
-        edits.sort_by(|a, b| a.pos.cmp(&b.pos).then(a.seq.cmp(&b.seq)));
+        edits.sort_by(|a, b| a.pos.cmp(&b.pos).then((a.del > 0).cmp(&(b.del > 0))).then(a.seq.cmp(&b.seq)));
         // check deletions do not overlap
         let mut dels: Vec<(usize, usize)> = edits.iter().filter(|e| e.del > 0).map(|e| (e.pos, e.pos + e.del)).collect();
         dels.sort();
